@@ -20,6 +20,7 @@ import (
 const (
 	workerEnvVar   = "MC_C03_WORKER"
 	progressEnvVar = "MC_C03_PROGRESS" // a 16-byte file the worker maps: [index+1 of the case being run, request id]
+	maxStackEnvVar = "MC_C03_MAXSTACK" // reader-only worker kind: goroutine stack ceiling in bytes (debug.SetMaxStack)
 )
 
 // progressMap maps the progress file shared with the parent.  Writing the
@@ -70,22 +71,23 @@ type flakyRec struct {
 }
 
 type reply struct {
-	ID       int64            `json:"id"`
-	P        *int64           `json:"p,omitempty"` // progress line: index about to run; the rest of the line is the cumulative reply for [lo, p)
-	Err      string           `json:"err,omitempty"`
-	Cases    int64            `json:"cases"`
-	Evals    int64            `json:"evals"`
-	Trans    int64            `json:"trans"`
-	Skipped  int64            `json:"skipped"`
-	Values   int64            `json:"values"`
-	Nontriv  int64            `json:"nontriv"`
-	NKeys    []string         `json:"nkeys,omitempty"`
-	Outcomes map[string]int64 `json:"outcomes,omitempty"`
-	Reps     map[string]int64 `json:"reps,omitempty"` // (fn \x00 kind) -> lowest index in this batch producing it
-	OKIdx    []int64          `json:"ok_idx,omitempty"`
-	Vios     []vioRec         `json:"vios,omitempty"`
-	Flaky    []flakyRec       `json:"flaky,omitempty"`
-	Samples  []kase           `json:"samples,omitempty"`
+	ID       int64             `json:"id"`
+	P        *int64            `json:"p,omitempty"` // progress line: index about to run; the rest of the line is the cumulative reply for [lo, p)
+	Err      string            `json:"err,omitempty"`
+	Cases    int64             `json:"cases"`
+	Evals    int64             `json:"evals"`
+	Trans    int64             `json:"trans"`
+	Skipped  int64             `json:"skipped"`
+	Values   int64             `json:"values"`
+	Nontriv  int64             `json:"nontriv"`
+	NKeys    []string          `json:"nkeys,omitempty"`
+	Outcomes map[string]int64  `json:"outcomes,omitempty"`
+	Reps     map[string]int64  `json:"reps,omitempty"` // (fn \x00 kind) -> lowest index in this batch producing it
+	OKIdx    []int64           `json:"ok_idx,omitempty"`
+	Vios     []vioRec          `json:"vios,omitempty"`
+	Flaky    []flakyRec        `json:"flaky,omitempty"`
+	Samples  []kase            `json:"samples,omitempty"`
+	Obs      map[string]string `json:"obs,omitempty"` // structural observation per case (stratum -> reader verdicts)
 }
 
 func init() {
@@ -104,6 +106,16 @@ func workerMain() {
 	lim := syscall.Rlimit{Cur: workerAddressSpace, Max: workerAddressSpace}
 	_ = syscall.Setrlimit(syscall.RLIMIT_AS, &lim)
 	debug.SetMemoryLimit(3 << 30)
+	// A READER-ONLY worker runs with a reduced goroutine stack ceiling, so
+	// that unbounded recursion in the reader is caught after megabytes rather
+	// than gigabytes.  Only spaces that do nothing but read are sent to such
+	// a worker; everything that evaluates keeps Go's default 1 GB ceiling.
+	if v := os.Getenv(maxStackEnvVar); v != "" {
+		var n int
+		if _, err := fmt.Sscan(v, &n); err == nil && n > 0 {
+			debug.SetMaxStack(n)
+		}
+	}
 	prog := progressMap()
 
 	in := bufio.NewReaderSize(os.Stdin, 1<<20)
@@ -220,6 +232,12 @@ func merge(rp *reply, k *kase, r *result, sample bool) {
 	}
 	if r.Outcome != "" {
 		rp.Outcomes[r.Outcome]++
+	}
+	if r.Obs != "" {
+		if rp.Obs == nil {
+			rp.Obs = map[string]string{}
+		}
+		rp.Obs[k.Stratum] = r.Obs
 	}
 	if r.RepKey != "" {
 		if old, ok := rp.Reps[r.RepKey]; !ok || k.Idx < old {
